@@ -48,8 +48,8 @@ Definition erase_fty (t : R.fty) : field :=
   | R.TDecimal _ _ => FScalar SDecimal
   | R.TTimestamp _ _ => FScalar STimestamp
   | R.TAny _ _ _ => FScalar SAny
-  | R.TObject _ _ => FObjRef any_ref
-  | R.TOneof _ _ => FOneofRef any_ref
+  | R.TObject _ _ _ => FObjRef any_ref
+  | R.TOneof _ _ _ => FOneofRef any_ref
   end.
 
 Definition erase_pty (t : R.pty) : field :=
@@ -68,7 +68,7 @@ Definition ptype_of (k : R.pkind) : ptype :=
   | R.KdInt32 => TInt32 | R.KdInt64 => TInt64 | R.KdUint32 => TUint32 | R.KdUint64 => TUint64
   | R.KdString => TString | R.KdBytes => TBytes | R.KdBool => TBool
   | R.KdFloat => TFloat | R.KdDouble => TDouble | R.KdEnum => TEnum
-  | R.KdMsgObject | R.KdMsgOneof | R.KdTimestamp | R.KdDate | R.KdDecimal | R.KdAny | R.KdMapEntry _ => TMessage
+  | R.KdMsgObject _ | R.KdMsgOneof _ | R.KdTimestamp | R.KdDate | R.KdDecimal | R.KdAny | R.KdMapEntry _ => TMessage
   | R.KdOther => TBytes
   end.
 
